@@ -144,7 +144,8 @@ def render(e, params=None, pre=None):
     if k == "mem":
         return "&st_%s.m" % e["et"]
     if k == "pcast":
-        return "((%s)%s)" % ("long" if e["to"] == "long" else "char *", render(e["p"], params, pre))
+        ty = "long" if e["to"] == "long" else "char *" if e["to"] == "charp" else "enum EN" if e["to"] == "enum" else CT[e["to"]]
+        return "((%s)%s)" % (ty, render(e["p"], params, pre))
     if k == "idx":
         return "&arr_%s[%s]" % (e["et"], render(e["a"], params, pre))
     if k == "padd":
@@ -254,6 +255,8 @@ def is_intk(r):
 
 def project(ctx, c, which):
     """expected observation of context ctx for case c under which in {'s' (ConstEval), 'm' (FoldModel)}"""
+    if ctx.startswith("addr") and c["s"].get("nar"):
+        return REJECT
     if ctx in ("addr", "addr_thread"):
         r = c[which]
         if r["st"] == "ok":
@@ -313,7 +316,7 @@ def project(ctx, c, which):
 
 
 def devs_of(ctx, c):
-    if ctx in ("addr", "addr_thread"):
+    if ctx.startswith("addr"):
         return sorted(c["m"]["dv"])
     key = {"static": "ma", "thread": "ma", "generic": "m", "enum": "m", "case": "m", "casedup": "m", "sa_direct": "m", "sa_ne": "mne",
            "condsel": "msel"}.get(ctx)
@@ -335,7 +338,8 @@ def prepare(c, i):
         set_elem(c["e"], c["et"])
         pre.append("%s arr_%s[%d];" % (CT[c["et"]], c["et"], c["an"]))
         pre.append("struct ST_%s { char c; %s m; } st_%s;" % (c["et"], CT[c["et"]], c["et"]))
-        c["DT"] = {"elem": CT[c["et"]] + " *", "long": "long ", "charp": "char *"}[c["dt"]]
+        pre.append("enum EN { EN_A };")
+        c["DT"] = {"elem": CT[c["et"]] + " *", "long": "long ", "charp": "char *", "enum": "enum EN "}.get(c["dt"]) or CT[c["dt"]] + " "
         c["E"] = render(c["e"], None, pre)
         c["pre"] = pre
         c["ice"] = True
@@ -364,6 +368,8 @@ def prelude(cs):
 
 def contexts_of(c):
     if c["f"] == "addr":
+        if c["s"].get("nar"):
+            return ["addr", "addr_thread", "addr_member", "addr_enum", "addr_sa", "addr_arr", "addr_case"]
         return ["addr", "addr_thread"]
     ctxs = ["static", "thread", "array", "sa_eq", "sa_ne", "condsel", "generic"]
     if c["isint"]:
@@ -380,6 +386,16 @@ def decl(ctx, c):
         return "%sq%d = %s;" % (c["DT"], i, E)
     if ctx == "addr_thread":
         return "_Thread_local %su%d = %s;" % (c["DT"], i, E)
+    if ctx == "addr_member":
+        return "struct { char tag; %slo; char end; } w%d = { 1, %s, 2 };" % (c["DT"], i, E)
+    if ctx == "addr_enum":
+        return "enum { y%d = %s };" % (i, E)
+    if ctx == "addr_sa":
+        return "_Static_assert(%s, \"x%d\");" % (E, i)
+    if ctx == "addr_arr":
+        return "char z%d[%s];" % (i, E)
+    if ctx == "addr_case":
+        return "int c%d(int x) { switch (x) { case %s: return 1; } return 0; }" % (i, E)
     T = c["T"]
     V = c.get("V")
     if ctx == "static":
@@ -415,7 +431,7 @@ def decl(ctx, c):
     raise vlib.MachineryError(ctx)
 
 
-NAME = {"addr": "q", "addr_thread": "u", "static": "v", "thread": "t", "array": "a", "enum": "e", "bitfield": "b", "alignas": "l", "condsel": "s", "generic": "g"}
+NAME = {"addr": "q", "addr_thread": "u", "addr_member": "w", "static": "v", "thread": "t", "array": "a", "enum": "e", "bitfield": "b", "alignas": "l", "condsel": "s", "generic": "g"}
 
 
 def observe(ctx, c, rc, mod, err):
@@ -433,7 +449,7 @@ def observe(ctx, c, rc, mod, err):
                             w = 32 if ins["op"] == "ceqw" else 64
                             return ("case", w, ins["args"][1]["v"] & ((1 << w) - 1))
         return ("no-ladder",)
-    if ctx in ("casedup", "sa_eq", "sa_ne", "sa_direct", "array_neg"):
+    if ctx in ("casedup", "sa_eq", "sa_ne", "sa_direct", "array_neg", "addr_enum", "addr_sa", "addr_arr", "addr_case"):
         return ("accept",)
     d = mod["byname"].get("%s%d" % (NAME[ctx], c["i"]))
     if d is None:
@@ -442,6 +458,8 @@ def observe(ctx, c, rc, mod, err):
     if total > 4096:
         return ("size", total)
     img, rel = ilparse.data_image(d)
+    if ctx in ("addr", "addr_thread", "addr_member") and c["s"].get("nar"):
+        return ("object", len(img), max([r[1] for r in rel] + [0]))          # bytes emitted, widest relocation
     if ctx in ("addr", "addr_thread"):
         if d["thread"] != (ctx == "addr_thread") or len(rel) != 1 or len(img) != 8:
             return ("bad-data", len(img), len(rel))
@@ -550,6 +568,18 @@ def judge(ctx, c, cx, obs, tag):
     key = "%s|%s|%s" % (tag, cx, c["E"])
     nontriv = len(ops_of(c["e"])) >= 1
     ctx.count(key, nontrivial=nontriv)
+    if c["f"] == "addr" and c["s"].get("nar"):
+        # (T)address with T narrower than a pointer: may be refused; if accepted the object keeps T's size (no 8-byte
+        # item in a narrower slot) and the compiler never dies
+        z = c["s"]["z"]
+        size = 3 * z if cx == "addr_member" else z
+        if obs == REJECT or obs == ("accept",) or (obs[0] == "object" and obs[1] == size and obs[2] <= z):
+            return True
+        ctx.violation("fold:narrowaddr:%s:%s" % (cx, c["dt"]),
+                      "`%s`: an address cast to a %d-byte integer type must be refused or leave a %d-byte object; observed %s"
+                      % (decl(cx, c), z, size, obs),
+                      {"context": cx, "source": prelude([c]) + decl(cx, c), "target": tag, "observed": list(obs), "object_size": size})
+        return False
     if c["f"] == "addr" and c["s"].get("ext") and obs == REJECT:
         return True      # an address converted to an integer: accepting it as a constant is an extension (6.6p10)
     if not c["ice"] and cx in ICE_CONTEXTS and obs == REJECT:
@@ -618,7 +648,7 @@ def run_cases(ctx, runner, cases, tag, batch=40):
             for cx in positive(c):
                 judge(ctx, c, cx, observe(cx, c, 0, mod, err), tag)
         else:
-            singles.extend((c, cx) for cx in positive(c) if cx in core)
+            singles.extend((c, cx) for cx in positive(c) if cx in core or c["s"].get("nar"))
     # contexts that must be rejected: one compilation each (guards against a vacuous always-accept)
     singles += [(c, cx) for c in clean for cx in negative(c) if cx != "casedup" or c["i"] % 4 == 1 or not ctx.quick]
     singles += [(c, cx) for c in solo for cx in negative(c) if cx == "sa_ne"]
@@ -652,7 +682,7 @@ def run_undefined(ctx, runner, cases, tag):
 # ---------------------------------------------------------------------------------------------
 # run-time half
 def run_runtime(ctx, objdir, cases, tag, per=150):
-    ok = [c for c in cases if c["s"]["st"] == "ok"]
+    ok = [c for c in cases if c["s"]["st"] == "ok" and not c["s"].get("nar")]     # (T)address truncates at run time: no prescribed value
     groups = [ok[i:i + per] for i in range(0, len(ok), per)]
 
     def build(gi_cs):
